@@ -98,7 +98,8 @@ def coq_build(targets, log):
         if t.startswith('Properties/') and os.path.exists(src):
             os.utime(src)  # recompile so that Print Assumptions output is captured
     # the extraction needs every Model/Spec file consistent with the regenerated tables
-    model_vo = sorted(f[len(COQ) + 1:] + 'o' for f in glob_files(COQ + '/Model', ('.v',)) + glob_files(COQ + '/Spec', ('.v',)))
+    listed = set(l.strip() for l in open(COQ + '/_CoqProject') if l.strip().endswith('.v'))
+    model_vo = sorted(f + 'o' for f in listed if f.startswith(('Model/', 'Spec/')))
     rc, out, dt = run(['make', '-k', '-j16'] + targets + model_vo, cwd=COQ, timeout=3000)
     log['coq_make_s'] = round(dt, 1)
     failures = []
@@ -183,6 +184,10 @@ def run_cases(prop, gen_name, seed, tier, log, tag=''):
     for line in out.split('\n'):
         if line.startswith('IMPLVIOL '):
             res['specviol'].append(line[9:])
+        m = re.match(r'COUNT (\S+) (\d+)', line)
+        if m:
+            res['classes']['monitor/' + m.group(1)] = res['classes'].get('monitor/' + m.group(1), 0) + int(m.group(2))
+            res['n'] += int(m.group(2))
     return res, None
 
 
@@ -304,9 +309,9 @@ def main():
         # widen the search if an obligation or the correspondence broke and no failing input yet
         broke = (not ok) or any(r['mismatch'] for r in results)
         if broke and not any(v for r in results for v in r['specviol'] if (' prop=' not in v or (' prop=' + prop) in v)) and not harness_err:
-            for extra in range(1, 4):
+            for extra in range(1, 7):
                 for gen_name in cfg.get('cases', []):
-                    res, e = run_cases(prop, gen_name, seed + 1000 * extra, 'thorough', log, tag='-w%d' % extra)
+                    res, e = run_cases(prop, gen_name, seed + 1000 * extra, cfg.get('widen_tier', 'quick'), log, tag='-w%d' % extra)
                     if res:
                         res['widened'] = True
                         results.append(res)
